@@ -18,7 +18,11 @@ RULE = ("One physical problem is drawn in canonical units (km/s, day, rad) toget
         "prior-sample column. Oracle (metamorphic): ll_twin - ll_base = -n ln(data-unit ratio) within the round-off "
         "model; with equal seeds the same prior samples are accepted; the (mean, cov) handed to the linear draw scale "
         "with the ratio and its square; returned columns carry the twin's data unit and are physically equal. "
-        "Non-trivial: the twin differs from the base in >=2 unit slots, at least one on the prior side.")
+        "Prior samples drawn from base and twin priors must lie in (and be log-uniform over) the same physical period range "
+        "(P_min / P_max may be quoted in different units); one in five twins re-uses the base's JokerPrior object. (extreme) a "
+        "40-120 epoch series is rescaled so that its best ln-likelihood sits just inside the range of exp() in km/s and outside "
+        "it in m/s, cm/s or AU/yr: rejection / iterative sampling (memory, cache, file) with equal seeds must return the same "
+        "prior samples in both. Non-trivial: the twin differs from the base in >=2 unit slots, at least one on the prior side.")
 SHARDS = {"quick": 4, "thorough": 16}
 BUDGET = {"quick": 75, "thorough": 800}
 
@@ -52,9 +56,20 @@ def twins(draw, thorough=False):
             s["err_unit"] = eu
         slots += (un != "km/s") + (eu != un)
     pr = twin["prior"]
+    shared = draw(st.sampled_from([False, False, False, False, True]))
+    if shared:
+        # the very same JokerPrior object serves both data sets (priors carry their own units)
+        twin["rows"] = [dict(r, s=cv(r["s"], "km/s", twin["surveys"][0]["unit"])) for r in base["rows"]]
+        twin["row_units"] = draw(gens.row_units(True))
+        return {"base": base, "twin": twin, "n_unit_slots_changed": int(slots), "prior_slots_changed": 0, "shared_prior": True,
+                "path": draw(st.sampled_from(["mem", "mem", "cache", "file"])),
+                "rng_seed": draw(st.integers(0, 2**32 - 1)), "n_linear": draw(st.sampled_from([1, 2, 4]))}
     pu = draw(st.sampled_from(og.TIME_UNITS))
     pr["P"]["min"], pr["P"]["max"], pr["P"]["unit"] = cv(pr["P"]["min"], "d", pu), cv(pr["P"]["max"], "d", pu), pu
     prior_slots += pu != "d"
+    if draw(st.booleans()):
+        pr["P"]["max_unit"] = draw(st.sampled_from(og.TIME_UNITS))    # P_min and P_max quoted in different units
+        prior_slots += pr["P"]["max_unit"] != pu
     K = pr["K"]
     if K["kind"] == "fcm":
         ku = draw(st.sampled_from(og.VEL_UNITS))
@@ -105,10 +120,11 @@ def body_factory(ctx):
 
     import thejoker as tj
 
-    def run_one(spec, pair):
+    def run_one(spec, pair, prior=None):
         prob = og.Problem(spec)
         data = gens.build_data(spec)
-        prior = gens.build_prior(spec["prior"])
+        if prior is None:
+            prior = gens.build_prior(spec["prior"])
         smp = gens.build_samples(spec)
         rows_eff = c01.effective_rows(smp, prob.data_unit)
         joker = tj.TheJoker(prior)
@@ -121,14 +137,33 @@ def body_factory(ctx):
             ll = np.asarray(joker.marginal_ln_likelihood(data, smp, in_memory=pair["path"] == "mem"), dtype=float)
         spec2 = dict(spec, path=pair["path"], rng_seed=pair["rng_seed"], n_linear=pair["n_linear"])
         out, calls, rg, pool = c03.run_rejection(ctx, spec2, prob, data, prior, smp)
-        return dict(prob=prob, rows=rows_eff, ll=ll, out=out, calls=calls, rg=rg)
+        # prior samples drawn from this prior with a fixed seed (the twin must draw the same physical periods)
+        drawn = prior.sample(size=48, rng=np.random.default_rng(pair["rng_seed"] % 1000 + 5))
+        return dict(prob=prob, rows=rows_eff, ll=ll, out=out, calls=calls, rg=rg, prior=prior, drawn=drawn)
 
     def body(pair):
         with ctx.sut("evaluating base problem"):
             B = run_one(pair["base"], pair)
         with ctx.sut("evaluating unit-transformed twin"):
-            T = run_one(pair["twin"], pair)
+            T = run_one(pair["twin"], pair, prior=B["prior"] if pair.get("shared_prior") else None)
         pb, pt = B["prob"], T["prob"]
+        # ---- the priors themselves describe the same physical period range
+        prb, prt = pair["base"]["prior"]["P"], pair["twin"]["prior"]["P"]
+        lo_d, hi_d = float(og.conv(prb["min"], prb["unit"], "d")), float(og.conv(prb["max"], prb["unit"], "d"))
+        for what, X in (("base", B), ("twin", T)):
+            Pd_ = X["drawn"]["P"].to_value(u.day)
+            if Pd_.min() < lo_d * (1 - 1e-9) or Pd_.max() > hi_d * (1 + 1e-9):
+                raise Violation("prior samples of the %s prior fall outside the declared period range" % what,
+                                range_days=(lo_d, hi_d), drawn_min=float(Pd_.min()), drawn_max=float(Pd_.max()),
+                                P_spec=prt if what == "twin" else prb)
+        if prb["kind"] == "uniformlog":
+            import scipy.stats as ss_
+            for what, X in (("base", B), ("twin", T)):
+                z = np.log(X["drawn"]["P"].to_value(u.day) / lo_d) / math.log(hi_d / lo_d)
+                pv = ss_.kstest(z, ss_.uniform.cdf).pvalue
+                if pv < 1e-9:
+                    raise Violation("prior samples of the %s prior are not log-uniform over the declared period range "
+                                    "(KS p=%.2g)" % (what, pv), range_days=(lo_d, hi_d), P_spec=prt if what == "twin" else prb)
         if pair["path"] == "file":
             # a file holding the base library, extended by the same rows expressed in the twin's units: either the
             # append is refused, or the file must then hold the same physical samples twice
@@ -222,6 +257,12 @@ def body_factory(ctx):
                 if not (np.all(np.isfinite(cb["mean"])) and np.all(np.isfinite(cb["cov"]))):
                     continue  # defect F2 (non-finite covariance), reported by C03
                 ev = og.evaluate(pb, B["rows"][i], want_posterior=True)
+                if og.tol_of(ev) > 1e-4:
+                    # the float64 emulation of the kernel's own route already deviates visibly from the exact value for
+                    # this configuration (cancellation in the kernel): its output is dominated by round-off, so two
+                    # evaluations of equivalent inputs cannot be expected to agree to the posterior tolerance
+                    ctx.classes["numerically unstable configuration: linear-draw scaling not judged"] += 1
+                    continue
                 # use the code's own base values as reference, scaled
                 ref = dict(ev)
                 ref["a"] = np.asarray(cb["mean"]) * f
@@ -246,10 +287,155 @@ def body_factory(ctx):
         nt = pair["n_unit_slots_changed"] >= 2 and pair["prior_slots_changed"] >= 1
         ctx.note_case(pair, nt, ["slots=%d" % min(pair["n_unit_slots_changed"], 9), "path:" + pair["path"],
                                  "twinP:" + pair["twin"]["prior"]["P"]["unit"], "K:" + pair["base"]["prior"]["K"]["kind"],
-                                 "twin_data:" + pt.data_unit, "accepted_same" if same else "accepted_differs(F4)"])
+                                 "twin_data:" + pt.data_unit, "prior object shared" if pair.get("shared_prior") else "prior rebuilt",
+                                 "twin P_max unit %s P_min unit" % ("!=" if pair["twin"]["prior"]["P"].get("max_unit") not in (None, pair["twin"]["prior"]["P"]["unit"]) else "=="),
+                                 "accepted_same" if same else "accepted_differs(F4)"])
+
+    return body
+
+
+# ----------------------------------------------------------------------------- likelihood values near the range of exp()
+def scale_spec(spec, g):
+    """The same problem with every velocity-like number multiplied by g (a physical rescaling: all ln-likelihoods move by
+    -n ln g, nothing else changes)."""
+    sp = copy.deepcopy(spec)
+    for sv in sp["surveys"]:
+        sv["rv"] = [x * g for x in sv["rv"]]
+        sv["err"] = [x * g for x in sv["err"]]
+    pr = sp["prior"]
+    K = pr["K"]
+    if K["kind"] == "fcm":
+        K["sigma_K0"] *= g
+        K["max_K"] = (K["max_K"] if K.get("max_K") is not None else 500.0) * g
+        K["max_K_unit"] = K.get("max_K_unit") or "km/s"
+    else:
+        K["mu"] *= g
+        K["sigma"] *= g
+    for x in pr["v"] + pr["offsets"]:
+        x["mu"] *= g
+        x["sigma"] *= g
+    sj = pr["s"]
+    if sj["kind"] == "const":
+        sj["value"] *= g
+    elif sj["kind"] == "lognormal":
+        sj["mu"] += math.log(g)
+    sp["rows"] = [dict(r, s=r["s"] * g) for r in sp["rows"]]
+    return sp
+
+
+def to_unit(spec, un):
+    sp = copy.deepcopy(spec)
+    for sv in sp["surveys"]:
+        sv["rv"] = [float(og.conv(x, "km/s", un)) for x in sv["rv"]]
+        sv["err"] = [float(og.conv(x, "km/s", un)) for x in sv["err"]]
+        sv["unit"] = un
+    sp["rows"] = [dict(r, s=float(og.conv(r["s"], "km/s", un))) for r in sp["rows"]]
+    return sp
+
+
+@st.composite
+def extreme_cases(draw):
+    base = draw(gens.problems(max_surveys=1, max_epochs=4, max_poly=2, n_rows=(6, 14), units=False, t_ref=False))
+    base["time_input"] = "float"
+    base["row_units"] = {"P": "d", "omega": "rad", "M0": "rad", "s": None}
+    # a long time series (the ln-likelihood of n epochs scales with n): epochs, velocities and (generous) errors from a seed
+    n = draw(st.integers(40, 120))
+    g_ = np.random.default_rng(draw(st.integers(0, 10**6)))
+    sv = base["surveys"][0]
+    t0 = min(sv["t"])
+    sv["t"] = [gens.rounded(float(x), 9) for x in np.sort(t0 + g_.uniform(0, 400.0, n))]
+    v0_mu = float(base["prior"]["v"][0]["mu"])
+    sv["rv"] = [gens.rounded(float(x), 9) for x in v0_mu + g_.normal(0.0, 1.0, n)]
+    sv["err"] = [gens.rounded(float(x), 9) for x in g_.uniform(2.0, 4.0, n)]
+    sv.pop("err_unit", None)
+    side = draw(st.sampled_from(["underflow", "underflow", "overflow"]))
+    return {"base": base, "side": side,
+            "margin": gens.rounded(draw(gens.fl(0.5, 30.0)), 3),
+            "unit": draw(st.sampled_from(["m/s", "cm/s"])) if side == "underflow" else "AU/yr",
+            "entry": draw(st.sampled_from(["rejection", "iterative", "iterative"])), "path": draw(st.sampled_from(["mem", "cache", "file"])),
+            "rng_seed": draw(st.integers(0, 2**32 - 1)), "n_batches": draw(st.sampled_from([None, 1, 3]))}
+
+
+def extreme_body_factory(ctx):
+    import astropy.units as u
+
+    import thejoker as tj
+
+    def sample(spec, case):
+        data = gens.build_data(spec)
+        prior = gens.build_prior(spec["prior"])
+        smp = gens.build_samples(spec)
+        joker = tj.TheJoker(prior, rng=np.random.default_rng(case["rng_seed"]))
+        ll = np.asarray(joker.marginal_ln_likelihood(data, smp, in_memory=True), dtype=float)
+        src, mem = smp, case["path"] == "mem"
+        if case["path"] == "file":
+            src = os.path.join(ctx.workdir, "c07x.hdf5")
+            smp.write(src, overwrite=True)
+        joker = tj.TheJoker(prior, rng=np.random.default_rng(case["rng_seed"]))
+        kw = {} if mem else {"n_batches": case["n_batches"]}
+        if case["entry"] == "rejection":
+            out = joker.rejection_sample(data, src, in_memory=mem, **kw)
+        else:
+            out = joker.iterative_rejection_sample(data, src, n_requested_samples=len(smp), init_batch_size=max(1, len(smp) // 3),
+                                                   in_memory=mem, **kw)
+        return ll, out
+
+    def body(case):
+        base = case["base"]
+        n = sum(len(sv["t"]) for sv in base["surveys"])
+        with ctx.sut("marginal_ln_likelihood of the unscaled problem"):
+            ll0 = np.asarray(tj.TheJoker(gens.build_prior(base["prior"])).marginal_ln_likelihood(
+                gens.build_data(base), gens.build_samples(base), in_memory=True), dtype=float)
+        if not np.all(np.isfinite(ll0)):
+            ctx.classes["extreme: unscaled likelihoods not finite (skipped)"] += 1
+            return
+        # rescale the problem so that its best ln-likelihood sits `margin` inside the range of exp(), and express it in a
+        # unit that moves it out of that range: the relative likelihoods - all the samplers need - do not change
+        f = float(og.conv(1.0, "km/s", case["unit"]))
+        shift_unit = -n * math.log(f)
+        if case["side"] == "underflow":
+            if shift_unit >= 0:
+                ctx.classes["extreme: unit does not lower the likelihood (skipped)"] += 1
+                return
+            target = -745.0 + min(case["margin"], -shift_unit * 0.9)
+        else:
+            if shift_unit <= 0:
+                ctx.classes["extreme: unit does not raise the likelihood (skipped)"] += 1
+                return
+            target = 709.0 - min(case["margin"], shift_unit * 0.9)
+        lg = (float(ll0.max()) - target) / n
+        if abs(lg) > 12:
+            ctx.classes["extreme: would need a rescaling beyond e^12 (skipped)"] += 1
+            return
+        g = math.exp(lg)
+        A = scale_spec(base, g)
+        Bsp = to_unit(A, case["unit"])
+        with ctx.sut("sampling the problem in km/s (best ln-likelihood %.1f)" % target):
+            llA, outA = sample(A, case)
+        with ctx.sut("sampling the same problem in %s (best ln-likelihood %.1f)" % (case["unit"], target + shift_unit)):
+            llB, outB = sample(Bsp, case)
+        if abs(float(llA.max()) - target) > 1e-6 * (abs(target) + n * abs(math.log(g)) + abs(float(ll0.max())) + 1):
+            raise Violation("rescaling every velocity by g does not move the ln-likelihood by -n ln g", g=g, n=n,
+                            before=float(ll0.max()), after=float(llA.max()), expected=target)
+        dev = np.abs((llB - shift_unit) - llA)
+        if np.any(dev > 1e-6 * (1 + np.abs(llA))):
+            raise Violation("marginal ln-likelihood is not invariant (up to the Jacobian) under a change of units", worst=float(dev.max()))
+        PA, PB = outA["P"].to_value(u.day), outB["P"].to_value(u.day)
+        if not (len(PA) == len(PB) and np.allclose(PA, PB, rtol=1e-12, atol=0)):
+            # knife edge: a uniform draw within round-off of an acceptance ratio
+            r = np.exp(llA - llA.max())
+            uu = np.random.default_rng(case["rng_seed"]).uniform(size=len(r))
+            if case["entry"] == "rejection" and np.min(np.abs(r - uu) - 1e-5 * r) <= 1e-12:
+                ctx.classes["extreme: knife-edge acceptance (skipped)"] += 1
+            else:
+                raise Violation("different prior samples returned for the same problem in other units (equal seeds), where "
+                                "the ln-likelihoods of one of them lie outside the range of exp()",
+                                km_s=PA[:10], other=PB[:10], unit=case["unit"], best_ll_km_s=float(llA.max()), best_ll_other=float(llB.max()))
+        ctx.note_case(case, True, ["extreme:" + case["side"], "extreme:" + case["entry"], "extreme:path:" + case["path"], "extreme:unit:" + case["unit"]])
 
     return body
 
 
 def run(ctx):
+    ctx.search("extreme", extreme_cases(), extreme_body_factory(ctx), quick=80, thorough=2000)
     ctx.search("twins", twins(thorough=not ctx.quick), body_factory(ctx), quick=1200, thorough=16000)
